@@ -135,6 +135,7 @@ class Sim:
         # (tag, target) whose 'doing' bookkeeping was cleared by an upstream
         # purge while a unit was executing; cleared when none is in flight
         self.lost_keys = set()
+        self.reply_job_queued = True
         reset_world()
         rig.install()
         dawgie.context.git_rev = rev
@@ -187,6 +188,8 @@ class Sim:
             if n.tag not in self.nodes:
                 self.nodes[n.tag] = n
                 stack.extend(list(n))
+        # algorithms the scheduler cannot reach (must be none: C09)
+        self.missing = sorted(set(self.ref.tag) - set(self.nodes))
         self.flags = {}
         self.event_runid = {}
         for i in {i % len(self.ref.tag) for i in bumped}:
@@ -480,6 +483,8 @@ class Sim:
         self.clock.advance(7)
         sock = rig.LoopSocket(self.farm.Hand(world.Address(u.worker.host, 4001)))
         u.answered = True  # delivered from here on
+        # was the job still in the scheduler's queue when its reply arrived?
+        self.reply_job_queued = any(j.tag == u.jobid for j in self.sched.que)
         message.send(resp, sock)
         return u, newset
 
@@ -502,7 +507,7 @@ class Sim:
         self.calls = []
         before = self.snapshot()
         nerr = len(self.errors)
-        if op[0] == 'auto':
+        if op[0] in ('auto', 'auto2'):
             op = self.resolve_auto(op)
         ev = {'op': op, 'step': self.step, 'before': before}
         kind = op[0]
@@ -540,6 +545,23 @@ class Sim:
                 ev['names'], ev['targets'] = self.request([idx], tl)
             else:
                 ev['names'], ev['targets'] = [], set()
+        elif kind == 'requp':
+            # a second event mid-flight: request an upstream algorithm of a
+            # unit that is executing right now, for the same target
+            cand = sorted(
+                {(a, u.target) for u in self.inflight()
+                 for a in self.ref.ancestors[u.jobid]}
+            )
+            if cand:
+                tag, tgt = cand[op[1] % len(cand)]
+                idx = self.ref.tag.index(tag)
+                if tgt == '__all__' or tgt not in self.db.target_list:
+                    tl = [-1]
+                else:
+                    tl = [self.db.target_list.index(tgt)]
+                ev['names'], ev['targets'] = self.request([idx], tl)
+            else:
+                ev['names'], ev['targets'] = [], set()
         elif kind == 'join':
             ev['worker'] = self.join(bool(op[1]), f'h{op[2] if len(op) > 2 else 0}')
         elif kind == 'leave':
@@ -548,6 +570,7 @@ class Sim:
             r = self.reply(op[1], OUTCOMES[op[2] % 3], op[3], op[4] if len(op) > 4 else 1)
             if r is not None:
                 ev['unit'], ev['newset'] = r
+                ev['job_queued'] = self.reply_job_queued
                 ev['outcome'] = OUTCOMES[op[2] % 3]
         elif kind == 'tgt':
             self.add_target(op[1])
@@ -595,8 +618,12 @@ class Sim:
         '''["auto", n, a, b, c] -> the n-th action enabled in this state.
         Keeps histories dense: replies only when something was handed, ticks
         only when something can move.'''
-        _, n, a, b, c = op
+        kind, n, a, b, c = op
         enabled = []
+        if kind == 'auto2' and any(
+            self.ref.ancestors[u.jobid] for u in self.inflight()
+        ):
+            enabled += ['requp'] * 2
         if self.handed():
             enabled += ['rep'] * 4
         if self.pending_any() or self.farm._cluster:
@@ -615,6 +642,8 @@ class Sim:
             return ['tick']
         if act == 'rereq':
             return ['rereq', a]
+        if act == 'requp':
+            return ['requp', a]
         if act == 'reqall':
             return ['reqall']
         return ['req', [a, b][: 1 + (c & 1)], [(c >> 1) % 5 - 1]]
@@ -651,7 +680,8 @@ class Sim:
 def op_strategy(weights=None):
     w = {
         'tick': 2, 'rep': 2, 'req': 2, 'join': 1, 'leave': 0, 'tgt': 1,
-        'pause': 0, 'active': 0, 'rereq': 1, 'auto': 16,
+        'pause': 0, 'active': 0, 'rereq': 1, 'auto': 9,
+        'auto2': 8, 'requp': 1,
     }
     w.update(weights or {})
     small = st.integers(0, 7)
@@ -673,6 +703,11 @@ def op_strategy(weights=None):
         st.tuples(st.just('auto'), st.integers(0, 59), small,
                   st.integers(0, 39), st.integers(0, 4095)).map(list)
     ] * w['auto']
+    choices += [
+        st.tuples(st.just('auto2'), st.integers(0, 59), small,
+                  st.integers(0, 39), st.integers(0, 4095)).map(list)
+    ] * w['auto2']
+    choices += [st.tuples(st.just('requp'), small).map(list)] * w['requp']
     choices += [st.tuples(st.just('join'), st.sampled_from([1, 1, 1, 0]),
                           st.integers(0, 2)).map(list)] * w['join']
     choices += [st.tuples(st.just('leave'), small).map(list)] * w['leave']
@@ -727,6 +762,13 @@ def run_history(case, on_event, at_end=None, pid=None):
     sim = Sim(case['spec'], case['targets'], case.get('bumped', ()),
               auto_workers=case.get('workers', 0))
     try:
+        if sim.missing:
+            out.fail(
+                'graph/algorithm-missing-from-task-tree',
+                f'{sim.missing} declared by the engine but not reachable in '
+                'schedule.ae.at: they can never be scheduled',
+            )
+            return out
         for op in case['ops']:
             ev = sim.do(op)
             on_event(sim, ev, out)
